@@ -57,7 +57,7 @@ CPU_PER_CHAR_S = 0.0005
 ENUM_MAX_LEN = 8192
 ENUM_SLICES = 64
 FLIP_ALPHABET = "(){}[]<>%^#!@:,=-+*?|\"0x9.e\\ \n\t\x00é中²١\x0b\x0c'/~`\u00a0\u2028\u3000\u0085\x1c\x1f\u200b\ufeff\r"
-FAULT_KINDS = ("eof", "drop", "flip", "dup", "swap", "torn", "splice", "crlf", "bom", "utf8cut", "insert", "stutter", "tokrepl", "tokdel", "tokdup", "numtweak")
+FAULT_KINDS = ("eof", "drop", "flip", "dup", "swap", "torn", "splice", "crlf", "bom", "utf8cut", "insert", "stutter", "tokrepl", "tokdel", "tokdup", "numtweak", "typetweak")
 
 
 NUM_TWEAKS = ("-1", "-9", "0", "-0", "99999999999", "18446744073709551616", "007", "1e3", "0x", "0x1p3", "-", "1.", ".5", "4294967296")
@@ -73,6 +73,35 @@ def num_tweak(text: str, a: int, b: int, tw: int) -> tuple[str, str]:
     if m is None:
         return text[:a] + rep + text[b:], f"numtweak[{a},{b}) <- {rep!r} (whole token)"
     return text[: a + m.start()] + rep + text[a + m.end() :], f"numtweak[{a + m.start()},{a + m.end()}) <- {rep!r}"
+
+
+TYPE_TWEAKS = (
+    "i0", "i1", "i7", "i64", "i65", "i128", "i4096", "i16777215", "i16777216", "si8", "ui1", "si128",
+    "f16", "bf16", "f32", "f64", "f80", "f128", "tf32", "f8E4M3FN", "f8E5M2", "f4E2M1FN", "f6E3M2FN", "f8E8M0FNU", "f0",
+    "index", "none", "complex<f80>", "complex<i1>", "complex<index>", "tuple<>", "vector<2xf80>", "tensor<1xi128>",
+    "memref<?xf128>", "!unknown.type", "tensor<*xf32>", "vector<[4]xi1>", "(i32) -> f80",
+)
+_TYPE_TOKEN_RE = None
+
+
+def _type_token_span(text: str, a: int, b: int) -> tuple[int, int] | None:
+    """If text[a:b] spells (or ends with) a builtin scalar type - `i32`, `f64`, `index`,
+    `xf32` as in `2xf32` - the span of that type spelling."""
+    global _TYPE_TOKEN_RE
+    import re
+
+    if _TYPE_TOKEN_RE is None:
+        _TYPE_TOKEN_RE = re.compile(r"(?:^|(?<=x))((?:[su]?i[0-9]+)|(?:f[0-9]+[A-Za-z0-9]*)|bf16|tf32|index)$")
+    m = _TYPE_TOKEN_RE.search(text[a:b])
+    if m is None:
+        return None
+    return a + m.start(1), a + m.end(1)
+
+
+def type_tweak(text: str, a: int, b: int, tw: int) -> tuple[str, str]:
+    rep = TYPE_TWEAKS[tw % len(TYPE_TWEAKS)]
+    sp = _type_token_span(text, a, b) or (a, b)
+    return text[: sp[0]] + rep + text[sp[1] :], f"typetweak[{sp[0]},{sp[1]}) {text[sp[0]:sp[1]][:16]!r} <- {rep!r}"
 
 
 class StepBudgetExceeded(BaseException):
@@ -390,7 +419,7 @@ def apply_fault(s: Stream, text: str, toks: list[tuple[int, int, str]], corpus: 
     kind = FAULT_KINDS[s.weighted(enabled)]
     n = len(text)
     desc = kind
-    if kind in ("tokrepl", "tokdel", "tokdup", "numtweak") and not toks:
+    if kind in ("tokrepl", "tokdel", "tokdup", "numtweak", "typetweak") and not toks:
         kind = "flip"
     if kind == "eof":
         k = _pos(s, text, toks, groups=groups)
@@ -456,6 +485,14 @@ def apply_fault(s: Stream, text: str, toks: list[tuple[int, int, str]], corpus: 
         else:
             a, b, _tk = toks[s.choice(len(toks))]
         text, desc = num_tweak(text, a, b, s.choice(len(NUM_TWEAKS)))
+    elif kind == "typetweak":
+        # a builtin scalar type spelling replaced by an unusual / unsupported type
+        tt = [j for j, (a, b, _) in enumerate(toks) if _type_token_span(text, a, b) is not None]
+        if tt:
+            a, b, _tk = toks[tt[s.choice(len(tt))]]
+        else:
+            a, b, _tk = toks[s.choice(len(toks))]
+        text, desc = type_tweak(text, a, b, s.choice(len(TYPE_TWEAKS)))
     elif kind in ("tokrepl", "tokdel", "tokdup"):
         # token-level damage: a grammar token replaced by another corpus token, lost, or doubled
         if groups and s.flag(2, 3):
@@ -507,6 +544,144 @@ def _token_kind_at(toks: list[tuple[int, int, str]], k: int) -> str:
         return toks[lo][2]
     return "between-tokens"
 
+
+
+# ---------------------------------------------------------------------------
+# W4: synthetic stress texts (generated, not taken from the corpus)
+# ---------------------------------------------------------------------------
+
+_LITS = ("0", "1", "-1", "-0", "255", "256", "-129", "4294967296", "18446744073709551616", "1e3", "1.5", "-0.0", "1e400", "0x7F", "0xFFFFFFFF", "0x7FC00000", "true", "false", "0x", "1.", "inf", "nan")
+_SCALAR_TYPES = ("i1", "i8", "i32", "i64", "index", "f16", "f32", "f64", "bf16") + TYPE_TWEAKS
+
+
+def synth_text(cfg: Stream) -> tuple[str, str]:
+    """A generated text of one of several families that stress one dimension each:
+    alias DAGs, nesting depth, long flat lists, affine expressions, typed literals."""
+    fam = cfg.choice(7)
+    if fam == 0:
+        # type alias DAG(s): !p(i+1) = tuple<!p(i), !p(i)>
+        d = 2 + cfg.choice(38)
+        two = cfg.choice(2)
+        shape = cfg.choice(4)
+
+        def chain(pn: str) -> str:
+            out = f"!{pn}0 = i32\n"
+            for i in range(1, d + 1):
+                out += f"!{pn}{i} = tuple<!{pn}{i - 1}, !{pn}{i - 1}>\n"
+            return out
+
+        t = chain("a") + (chain("b") if two else "")
+        other = "b" if two else "a"
+        if shape == 0:
+            t += f'%0 = "x"() : () -> !a{d}\n"y"(%0) : (!{other}{d}) -> ()\n'
+        elif shape == 1:
+            t += f'"y"(%0) : (!{other}{d}) -> ()\n%0 = "x"() : () -> !a{d}\n'
+        elif shape == 2:
+            t += f'"r"() ({{\n^bb0(%a : !a{d}):\n  "y"(%a, %a) : (!{other}{d}, !a{d}) -> ()\n}}) : () -> ()\n'
+        else:
+            t += f'"y"() {{a = !a{d}, b = !{other}{d}}} : () -> ()\n'
+        return t, f"alias-dag(depth={d}, chains={1 + two}, shape={shape})"
+    if fam == 1:
+        # attribute alias DAG
+        d = 2 + cfg.choice(38)
+        kind = cfg.choice(2)
+        t = "#a0 = 1 : i32\n#b0 = 1 : i32\n"
+        for i in range(1, d + 1):
+            for pn in "ab":
+                t += f"#{pn}{i} = [#{pn}{i - 1}, #{pn}{i - 1}]\n" if kind == 0 else f"#{pn}{i} = {{x = #{pn}{i - 1}, y = #{pn}{i - 1}}}\n"
+        t += f'"y"() {{a = #a{d}, b = #b{d}}} : () -> ()\n'
+        return t, f"attr-alias-dag(depth={d}, kind={kind})"
+    if fam == 2:
+        # nesting depth
+        d = (3, 20, 80, 300, 1200)[cfg.weighted((2, 3, 3, 2, 1))]
+        kind = cfg.choice(5)
+        if kind == 0:
+            t = '"y"() {a = ' + "[" * d + "1" + "]" * d + "} : () -> ()\n"
+        elif kind == 1:
+            t = '"y"() : () -> ' + "tuple<" * d + "i32" + ">" * d + "\n"
+        elif kind == 2:
+            t = '"r"() (' + "{\n" + ('"r"() ({\n' * min(d, 300)) + ('}) : () -> ()\n' * min(d, 300)) + "}) : () -> ()\n"
+        elif kind == 3:
+            t = '"y"() {a = affine_map<(d0) -> (' + "(" * d + "d0" + ")" * d + ")>} : () -> ()\n"
+        else:
+            t = '"y"() {a = dense<' + "[" * min(d, 300) + "1" + "]" * min(d, 300) + "> : tensor<" + "1x" * min(d, 300) + "i32>} : () -> ()\n"
+        return t, f"nesting(depth={d}, kind={kind})"
+    if fam == 3:
+        # long flat lists
+        n = (5, 60, 400, 2500)[cfg.weighted((2, 3, 3, 1))]
+        kind = cfg.choice(6)
+        if kind == 0:
+            t = "".join(f'%{i} = "x"() : () -> i32\n' for i in range(n))
+        elif kind == 1:
+            t = f'%0:{n} = "x"() : () -> (' + ", ".join(["i32"] * n) + ")\n" + f'"y"(%0#{n - 1}) : (i32) -> ()\n'
+        elif kind == 2:
+            t = '"y"() {a = dense<[' + ", ".join(str(i % 7) for i in range(n)) + f"]> : tensor<{n}xi8>}} : () -> ()\n"
+        elif kind == 3:
+            t = '"y"() {a = "' + "\\22ab\\n" * n + '"} : () -> ()\n'
+        elif kind == 4:
+            t = '"y"() {a = affine_map<(d0, d1)[s0] -> (' + " + ".join(("d0", "d1 * 2", "s0", "3")[i % 4] for i in range(n)) + ")>} : () -> ()\n"
+        else:
+            t = '"y"() {' + ", ".join(f"k{i} = {i}" for i in range(n)) + "} : () -> ()\n"
+        return t, f"flat(n={n}, kind={kind})"
+    if fam == 4:
+        # generated affine expressions with boundary constants
+        consts = ("0", "1", "-1", "2", "4", "-3", "9223372036854775807", "18446744073709551616")
+        atoms = ("d0", "d1", "s0") + consts
+        binops = ("+", "-", "*", "floordiv", "ceildiv", "mod")
+
+        def expr(depth: int) -> str:
+            if depth == 0 or cfg.flag(1, 3):
+                return atoms[cfg.choice(len(atoms))]
+            l, r = expr(depth - 1), expr(depth - 1)
+            e = f"{l} {binops[cfg.choice(len(binops))]} {r}"
+            return f"({e})" if cfg.flag(1, 2) else e
+
+        k = cfg.choice(3)
+        if k == 0:
+            t = '"y"() {a = affine_map<(d0, d1)[s0] -> (' + ", ".join(expr(3) for _ in range(1 + cfg.choice(3))) + ")>} : () -> ()\n"
+        elif k == 1:
+            rel = (">=", "==")[cfg.choice(2)]
+            t = '"y"() {a = affine_set<(d0, d1)[s0] : (' + ", ".join(f"{expr(2)} {rel} 0" for _ in range(1 + cfg.choice(3))) + ")>} : () -> ()\n"
+        else:
+            t = f'"y"() : () -> memref<4x?xf32, affine_map<(d0, d1)[s0] -> ({expr(3)}, {expr(2)})>>\n'
+        return t, f"affine(kind={k})"
+    if fam == 5:
+        # typed literals: every literal spelling against every scalar type, in each literal context
+        lit = _LITS[cfg.choice(len(_LITS))]
+        ty = _SCALAR_TYPES[cfg.choice(len(_SCALAR_TYPES))]
+        ctxk = cfg.choice(7)
+        n = (0, 1, 2, 3)[cfg.choice(4)]
+        if ctxk == 0:
+            t = f'"y"() {{a = {lit} : {ty}}} : () -> ()\n'
+        elif ctxk == 1:
+            t = f'"y"() {{a = dense<{lit}> : tensor<{n}x{ty}>}} : () -> ()\n'
+        elif ctxk == 2:
+            t = f'"y"() {{a = dense<[{lit}, {lit}]> : vector<2x{ty}>}} : () -> ()\n'
+        elif ctxk == 3:
+            t = f'"y"() {{a = array<{ty}: {lit}, {lit}>}} : () -> ()\n'
+        elif ctxk == 4:
+            t = f'"y"() {{a = dense<({lit}, {lit})> : tensor<1xcomplex<{ty}>>}} : () -> ()\n'
+        elif ctxk == 5:
+            t = f'"y"() {{a = dense<"0x0102030405060708"> : tensor<{n}x{ty}>}} : () -> ()\n'
+        else:
+            t = f'"y"() {{a = sparse<[[0]], [{lit}]> : tensor<{n + 1}x{ty}>, b = dense_resource<k> : tensor<{n}x{ty}>, c = #builtin.int<{lit}>, d = loc("f":{lit}:{lit})}} : () -> ()\n'
+        return t, f"typed-literal(ctx={ctxk}, lit={lit!r}, type={ty!r})"
+    # fam 6: SSA names, indices and block labels at their boundaries
+    k = cfg.choice(6)
+    idx = ("0", "1", "2", "-1", "-2", "007", "18446744073709551616", "9" * 30)[cfg.choice(8)]
+    if k == 0:
+        t = f'%0:2 = "x"() : () -> (i32, i32)\n"y"(%0#{idx}) : (i32) -> ()\n'
+    elif k == 1:
+        t = f'"y"(%0#{idx}) : (i32) -> ()\n%0:2 = "x"() : () -> (i32, i32)\n'
+    elif k == 2:
+        t = f'%0:{idx} = "x"() : () -> (i32, i32)\n'
+    elif k == 3:
+        t = f'"r"() ({{\n^bb{idx}(%a : i32):\n  "y"(%a#{idx})[^bb{idx}] : (i32) -> ()\n}}) : () -> ()\n'
+    elif k == 4:
+        t = f'"r"() ({{\n  "b"()[^{idx}, ^bb1] : () -> ()\n^bb1:\n  "y"() : () -> ()\n}}) : () -> ()\n'
+    else:
+        t = f'%{idx} = "x"() : () -> i32\n"y"(%{idx}, %{idx}#0) : (i32, i32) -> ()\n'
+    return t, f"ssa-boundary(kind={k}, idx={idx!r})"
 
 # ---------------------------------------------------------------------------
 # engine
@@ -608,6 +783,33 @@ def _num_strata(corpus: Corpus, seed: int) -> list[tuple[int, ...]]:
     return out  # type: ignore[return-value]
 
 
+def _type_strata(corpus: Corpus, seed: int) -> list[tuple[int, ...]]:
+    """Stratified type tweaks: for every distinct (spelling class of a builtin scalar type
+    token, previous kind, next kind) one representative token, each unusual type."""
+    out: list[tuple[int, ...]] = []
+    for wl in (0, 1):
+        strata: dict[tuple[Any, ...], list[tuple[int, int]]] = {}
+        for ci in range(len(corpus.w1)):
+            text = corpus.text(wl, ci)
+            if len(text) > ENUM_MAX_LEN:
+                continue
+            toks = corpus.tokens(wl, ci)
+            prev = "START"
+            for ti, (a, b, kind) in enumerate(toks):
+                nxt = toks[ti + 1][2] if ti + 1 < len(toks) else "END"
+                sp = _type_token_span(text, a, b)
+                if sp is not None:
+                    cls = text[sp[0]] + ("x" if sp[0] > a else "")
+                    strata.setdefault((cls, prev, nxt), []).append((ci, ti))
+                prev = kind
+        for key in sorted(strata, key=repr):
+            cands = strata[key]
+            ci, ti = cands[zlib.crc32(f"{seed}:t:{wl}:{key!r}".encode()) % len(cands)]
+            for tw in range(len(TYPE_TWEAKS)):
+                out.append((4, ci, ti, tw, wl))
+    return out  # type: ignore[return-value]
+
+
 _ENG: "StreamEngine | None" = None
 
 
@@ -651,7 +853,8 @@ class StreamEngine(Engine):
         st = res.stats
         tr: list[str] | None = [] if trace else None
         w3 = False
-        mode = cfg.choice(4, lambda r: 0)  # 0 sampled; 1 / 2 / 3 = enumerated eof / drop / numeric tweak (records built by extra_phase)
+        w4_label = ""
+        mode = cfg.choice(6, lambda r: 0)  # 0 sampled; 1 / 2 / 3 = enumerated eof / drop / numeric tweak (records built by extra_phase)
         if mode == 3:
             ci = cfg.choice(len(corpus.w1))
             ti_raw = cfg.choice(1 << 30)
@@ -667,6 +870,22 @@ class StreamEngine(Engine):
             else:
                 damaged, d = text, "numtweak(no tokens)"
             st["enum.numtweak"] += 1
+            descs = [d]
+        elif mode == 4:
+            ci = cfg.choice(len(corpus.w1))
+            ti_raw = cfg.choice(1 << 30)
+            tw = cfg.choice(len(TYPE_TWEAKS))
+            wl = cfg.choice(2)
+            text = corpus.text(wl, ci)
+            toks = corpus.tokens(wl, ci)
+            ti = ti_raw % max(1, len(toks))
+            if toks:
+                a, b, kd = toks[ti]
+                damaged, d = type_tweak(text, a, b, tw)
+                st["tok." + kd] += 1
+            else:
+                damaged, d = text, "typetweak(no tokens)"
+            st["enum.typetweak"] += 1
             descs = [d]
         elif mode:
             ci = cfg.choice(len(corpus.w1))
@@ -691,7 +910,14 @@ class StreamEngine(Engine):
             ci = cfg.choice(len(corpus.w1))
             text = corpus.text(wl, ci)
             toks = corpus.tokens(wl, ci)
-            if wl == 0 and toks and cfg.flag(1, 6):
+            if wl == 0 and cfg.flag(1, 7):
+                # W4: a generated stress text (builtin-only context)
+                text, label = synth_text(cfg)
+                toks = []
+                w3 = True
+                w4_label = label
+                st["workload.W4_synthetic." + label.split("(")[0]] += 1
+            elif wl == 0 and toks and cfg.flag(1, 6):
                 # W3: a generated token sequence (tokens of one generic-form chunk in
                 # seeded order, a prefix kept intact so that the parser gets going)
                 keep = cfg.choice(min(len(toks), 40) + 1)
@@ -708,6 +934,8 @@ class StreamEngine(Engine):
             if not any(enabled):
                 enabled[cfg.choice(len(enabled))] = 1
             nf = 1 + cfg.weighted((5, 3, 2))
+            if w4_label and cfg.flag(1, 2):
+                nf = 0  # the generated text itself is the input
             damaged = text
             descs = []
             groups = corpus.by_kind(wl, ci) if toks else None
@@ -716,7 +944,7 @@ class StreamEngine(Engine):
                 damaged, d = apply_fault(fs, damaged, toks if intact else [], corpus, wl, st, enabled, groups if intact else None)
                 descs.append(d)
         if tr is not None:
-            tr.append(f"file {corpus.names[ci]} workload {('W3-token-sequence' if w3 else 'W1-core-generic') if wl == 0 else 'W2-full-custom'} len {len(text)} faults {descs} -> len {len(damaged)} crc {zlib.crc32(damaged.encode('utf-8', 'replace')):08x}")
+            tr.append(f"file {corpus.names[ci]} workload {(('W4-synthetic ' + w4_label) if w4_label else 'W3-token-sequence' if w3 else 'W1-core-generic') if wl == 0 else 'W2-full-custom'} len {len(text)} faults {descs} -> len {len(damaged)} crc {zlib.crc32(damaged.encode('utf-8', 'replace')):08x}")
         out = judge.parse(damaged, wl)
         oc = out["outcome"]
         if oc == "timeout":
@@ -775,7 +1003,7 @@ class StreamEngine(Engine):
         n_chunk_tasks = len(tasks)
         strat: list[tuple[int, int, int]] = []
         if tier == "quick":
-            strat = _strata(corpus, seed) + _num_strata(corpus, seed)  # type: ignore[operator]
+            strat = _strata(corpus, seed) + _num_strata(corpus, seed) + _type_strata(corpus, seed)  # type: ignore[operator]
             tasks = [(-1, 0, 0, strat[i : i + 150]) for i in range(0, len(strat), 150)] + tasks
         st: Counter[str] = Counter()
         viols: list[tuple[int, dict[str, Any], Violation]] = []
@@ -858,6 +1086,7 @@ class StreamEngine(Engine):
                 "enumerated_eof": stats.get("enum.eof", 0),
                 "enumerated_drop": stats.get("enum.drop", 0),
                 "enumerated_numeric_tweak": stats.get("enum.numtweak", 0),
+                "enumerated_type_tweak": stats.get("enum.typetweak", 0),
             },
             "outcomes": {k[8:]: v for k, v in sorted(stats.items()) if k.startswith("outcome.")},
             "enumerated_fault_position_token_kind": {k[4:]: v for k, v in sorted(stats.items()) if k.startswith("tok.")},
